@@ -344,6 +344,10 @@ def coo_from_triplets(it, data, row, col, shape, name=None, region="FRESH", fmt=
         # rows are 0..nnz-1 (np.arange): exactly one stored entry per row
         cv0, dv0 = col.vec(), data.vec()
         m.entry = lambda i, j: z3.If(ops.to_term(cv0.f(i)) == _iv(j), ops._real(dv0.f(i)), z3.RealVal(0))
+    if not isinstance(nnz, int) and m.entry is None and getattr(col.vec(), "is_arange", False):
+        # columns are 0..nnz-1 (np.arange): exactly one stored entry per column
+        rv0, dv1 = row.vec(), data.vec()
+        m.entry = lambda i, j: z3.If(ops.to_term(rv0.f(j)) == _iv(i), ops._real(dv1.f(j)), z3.RealVal(0))
     if isinstance(nnz, int):
         rv, cv, dv = row.vec(), col.vec(), data.vec()
 
@@ -422,6 +426,7 @@ def convert(it, m: Mat, how, *a, **k):  # noqa: F811
         r = coo_from_triplets(it, Arr(data.cell, data.lo, data.n), Arr.new(row.vec()), Arr.new(col.vec()), (m.rows, m.cols), name=m.name, region=m.region, fmt="coo")
         r.entry = m.entry
         r.name = m.name
+        r.container_region = "FRESH"  # the container (shape, index arrays) is new; only .data is shared
         return r
     # every other conversion (csc.tocoo, x.tocsr/x.tocsc from another format, copy=True) is a fresh copy
     r = coo_from_triplets(it, Arr.new(data.vec()), Arr.new(row.vec()), Arr.new(col.vec()), (m.rows, m.cols), name=m.name, region="FRESH", fmt=target)
@@ -441,7 +446,33 @@ def mat_attr(it, m: Mat, name):  # noqa: F811
         from .interp import PyFunc
 
         return PyFunc(lambda it_: convert(it_, m, "copy", m.fmt, copy=True), "spmatrix.copy")
+    if name == "resize":
+        from .interp import PyFunc
+
+        return PyFunc(lambda it_, *shape: mat_resize(it_, m, shape), "spmatrix.resize")
     return _old_attr(it, m, name)
+
+
+def mat_resize(it, m: Mat, shape):
+    """spmatrix.resize(shape): IN PLACE - entries outside the new shape are dropped, new rows/columns are empty.
+    The receiver is mutated, so the store hook sees it with the receiver's region (a resize of a caller-owned
+    matrix is a frame violation)."""
+    if len(shape) == 1 and isinstance(shape[0], tuple):
+        shape = shape[0]
+    r1, c1 = shape
+    hook = it.hooks.get("store")
+    if hook is not None:
+        class _Container:
+            region = getattr(m, "container_region", m.region)
+
+        hook(it, _Container, None, None, "spmatrix.resize")
+    r0, c0, e0 = m.rows, m.cols, entry_fn(it, m)
+    if True:
+        m.entry = lambda i, j: z3.If(z3.And(_iv(i) < _iv(r0), _iv(j) < _iv(c0)), ops._real(e0(i, j)), z3.RealVal(0))
+    m.rows, m.cols = r1, c1
+    m.coo = None
+    m.transposed_of = None
+    return None
 
 
 def _install2(it):
